@@ -492,6 +492,7 @@ func checkC09(c *Ctx, r *Report) {
 	lenSearchKey(c, r, "C09.R3.len-search-key", "Truncate's budget is too small and the truncated reply exceeds the size asked for")
 	oneBudget(c, r, "C09.R1.one-budget")
 	round12(c, r, "C09")
+	round13(c, r, "C09")
 }
 
 // edgeDominatesAny: one of the If's edges edge-dominates target.
